@@ -4,7 +4,7 @@ export GOFLAGS=-mod=mod GOPROXY=off GOSUMDB=off GOTOOLCHAIN=local
 (cd engine && go build -o ../bin/gosym .) || exit 2
 for p in "$@"; do
   s=$(date +%s)
-  timeout 1500 ./check $p thorough > thorough_$p.log 2>&1
+  VERIF_ITEM_LIMIT=420 timeout 1300 ./check $p thorough > thorough_$p.log 2>&1
   rc=$?
   echo "$p exit=$rc $(( $(date +%s) - s ))s $(grep 'thorough:' thorough_$p.log | cut -c1-260)"
 done
